@@ -92,14 +92,9 @@ fn show_case(es: &[Entry], line: &str) -> String {
 
 fn new_env(es: &[Entry]) -> Env<impl yash_semantics::Runtime + 'static> {
     let mut env = Env::new_virtual();
-    env.builtins.insert(
-        "alias",
-        Builtin::new(Mandatory, |env, args| Box::pin(yash_builtin::alias::main(env, args))),
-    );
-    env.builtins.insert(
-        "unalias",
-        Builtin::new(Mandatory, |env, args| Box::pin(yash_builtin::unalias::main(env, args))),
-    );
+    // all real built-ins, as yash-cli installs them: the parser's declaration-utility glossary is the Env
+    // (export/readonly/typeset = declaration utilities, command = neutral, anything else = not)
+    env.builtins.extend(yash_builtin::iter());
     for e in es {
         // the first definition of a name wins (the model's table look-up is `find?`)
         if env.aliases.get(e.name.as_str()).is_none() {
@@ -852,6 +847,56 @@ fn main() {
             let ns: Vec<&str> = (0..4).map(|_| *r.pick(names)).collect();
             let l2 = fill(l, &mut r, ns[0], ns[1]);
             out(&t, &render(&l2, &ns));
+        }
+    }
+
+    // (7) every utility class of the declaration-utility glossary x alias names in every argument position:
+    // argument words are replaced only by global aliases (or after a blank-ending replacement), whatever the
+    // command name is
+    let utils = [
+        "export", "readonly", "typeset", "command", "command command", "command export", "command -v",
+        "command -p", "command --", "export --", "export -p", "x", "alias", "v=1 command", ">f command",
+        "2>f v=1 export", "command typeset", "command -p command", "exec", "eval", "\\command", "'command'",
+    ];
+    let u_tpl = [
+        "{u} {0}",
+        "{u} {0} {1}",
+        "{u} -x {0}",
+        "{u} -- {0} {1}",
+        "{u} {0}={1} {2}",
+        "{u} {0} > {1}",
+        "{u} \\\n{0} {1}",
+        "{u} {0}; {u} {1}",
+        "{0} {u} {1}",
+        "{u} {0} | {u} {1}",
+        "if {u} {0}; then {u} {1}; fi",
+        "{u} '{0}' {1}",
+        "{u} > {0} {1}",
+        "{u}\n{0}",
+    ];
+    let nu7 = if o.thorough() { 2500 } else { 60 };
+    for _ in 0..nu7 {
+        let mut r = rng.fork();
+        let mut t = vec![];
+        let gden = if r.chance(1, 3) { 2 } else { 6 };
+        for n in names {
+            if r.chance(1, 8) {
+                continue;
+            }
+            let value = match r.below(6) {
+                0 => r.pick(&utils).to_string(),
+                1 => format!("{} ", r.pick(&utils)),
+                2 | 3 => r.pick(&core).clone(),
+                _ => r.pick(&pool).clone(),
+            };
+            t.push(Entry { name: n.to_string(), global: r.chance(1, gden), value });
+        }
+        for u in utils.iter() {
+            for _ in 0..3 {
+                let l = r.pick(&u_tpl).replace("{u}", u);
+                let ns: Vec<&str> = (0..4).map(|_| *r.pick(names)).collect();
+                out(&t, &render(&l, &ns));
+            }
         }
     }
 }
